@@ -8,7 +8,7 @@
    ex_lists : the fun2core output of examples/Lists/Lists.sc (closures, data, calls, mu-arguments). *)
 From Coq Require Import List ZArith NArith String Bool Lia.
 From SCC Require Import Base.Sexp Lang.CoreSyn Sem.AxSem Sem.CoreSem Model.Backend Model.Uniquify Model.Focus
-     Model.FocusCheck Proof.FocusExamples Proof.FocusSim Proof.FocusRun Proof.FocusFrag Proof.FocusPres.
+     Model.FocusCheck Proof.FocusExamples Proof.FocusSim Proof.FocusRun Proof.FocusFrag Proof.FocusPres Proof.UqAeq.
 Import ListNotations.
 Open Scope string_scope.
 Open Scope Z_scope.
@@ -22,7 +22,7 @@ Definition ex_order : cprog :=
        [] [] 0%N.
 
 Definition checks (p : cprog) (bn kr : bool) (fuel fuel' : nat) (args : list Z) (expect : obs) : bool :=
-  pre_check p && focus_wf p &&
+  pre_check p && focus_wf p && cs_prog p && sg_prog bn kr p && clash_free_prog fuel p args &&
   match uniquify_prog p, focus_prog p with
   | Ok p1, Ok q =>
       sg_prog bn kr p1 && clash_free_prog fuel p1 args &&
@@ -55,10 +55,10 @@ Proof. vm_compute. reflexivity. Qed.
 Definition checks_str (s : string) (fuel fuel' : nat) : bool :=
   match parse_prog s with
   | Some p =>
-      pre_check p && focus_wf p &&
+      pre_check p && focus_wf p && cs_prog p && sg_prog false true p &&
       match uniquify_prog p, focus_prog p with
       | Ok p1, Ok q =>
-          sg_prog false true p1 && obs_eqb (run_core fuel p1 []) (run_fs fuel' q []) &&
+          sg_prog false true p1 && obs_eqb (run_core fuel p []) (run_fs fuel' q []) && obs_eqb (run_core fuel p1 []) (run_fs fuel' q []) &&
           match snd (run_core fuel p1 []) with OExit _ => true | _ => false end
       | _, _ => false
       end
